@@ -44,6 +44,25 @@ NESTED = [
 ]
 
 
+def _more_nested():
+    """All 3-tuples over {bool, Qint2, Qint3}, each also nested as the first / last member of an outer tuple."""
+    el = ["bool", "Qint2", "Qint3"]
+    out = []
+    for x in el:
+        for y in el:
+            for z in el:
+                t = "Tuple[%s, %s, %s]" % (x, y, z)
+                out.append(t)
+                out.append("Tuple[%s, Qint2]" % t)
+                if x == z and y != x:
+                    out.append("Tuple[%s, Qint4]" % t)
+                    out.append("Tuple[bool, %s, %s]" % (t, t))
+    return out
+
+
+NESTED = NESTED + [t for t in _more_nested() if t not in NESTED]
+
+
 def lib_type(name):
     from qlasskit import types as T
     ns = {"Tuple": Tuple, "bool": bool, "Qlist": T.Qlist, "Qmatrix": T.Qmatrix}
